@@ -1,6 +1,7 @@
 package main
 
 import (
+	"fmt"
 	"strings"
 
 	"golang.org/x/tools/go/ssa"
@@ -17,6 +18,7 @@ func checkC20(c *Ctx, r *Report) {
 		return
 	}
 	r.rule("C20.W1", "Watch(…, WithRev(f(r.rev))); r.rev written only from Header.Revision of the load / watch response", 6)
+	r.rule("C20.W4", "loadAll's table and revision are one etcd snapshot: the range read is not repeated within a load unless pinned to one revision", 2)
 	r.rule("C20.W2", "in watch(): after the channel closes loadAll is called before the next Watch", 2)
 	r.rule("C20.W3", "routes replaced wholesale only by loadAll (and the constructor)", 4)
 
@@ -26,6 +28,40 @@ func checkC20(c *Ctx, r *Report) {
 		la := needFn(m, r, "C20.W1", pkgMetadata, "(*"+rt+").loadAll")
 		if wf == nil || la == nil {
 			continue
+		}
+		// W4: the table and the revision are one snapshot: the range read that fills the table runs
+		// once per load; a read repeated in a loop (paging) sees each page at a different revision
+		// unless every page is pinned to one revision with WithRev, and a change to an already-read
+		// page is then neither in the table nor replayed by the watch that resumes after the last page.
+		gets := findCalls(la, "~client/v3.KV).Get")
+		if len(gets) == 0 {
+			r.unresolved("C20.W4", rt+".loadAll range read", "no etcd Get found")
+		}
+		for gi, g := range gets {
+			key := fmt.Sprintf("%s.loadAll range read #%d is a single-revision snapshot", rt, gi+1)
+			gb := g.Block()
+			inLoop := false
+			for b := range blocksAfter(gb) {
+				if b == gb {
+					inLoop = true
+				}
+			}
+			pinned := false
+			for _, a := range g.Common().Args {
+				backSlice(a, false, func(v ssa.Value) {
+					if wc, ok := v.(*ssa.Call); ok && strings.HasSuffix(calleeName(&wc.Call), "client/v3.WithRev") {
+						pinned = true
+					}
+				})
+			}
+			switch {
+			case !inLoop:
+				r.ok("C20.W4", key, m.Pos(g.Pos()), "one read per load")
+			case pinned:
+				r.ok("C20.W4", key, m.Pos(g.Pos()), "repeated, every read pinned with WithRev")
+			default:
+				r.viol("C20.W4", key, m.Pos(g.Pos()), "the read is repeated in a loop without WithRev: pages come from different revisions, so the installed table is not the state at the revision the watch resumes from")
+			}
 		}
 		watches := findCalls(wf, "~client/v3.Watcher).Watch")
 		if len(watches) == 0 {
